@@ -96,7 +96,17 @@ def real_data(ck, em, rng, count):
             m = gt.fit(gt.new_machine(em, init, 1, None, sw, "map", prior, None, alpha=alpha), X, chunks)
             w, mu, var = blend(prior, st, rel, um, uv, uw, alpha=alpha)
         else:
-            m = gt.fit(gt.new_machine(em, init, 1, None, sw, "map", prior, rel, switched=(i % 3 == 1)), X)
+            m0 = gt.new_machine(em, init, 1, None, sw, "map", prior, rel, switched=(i % 3 == 1))
+            if i % 5 == 4:
+                # the machine is written to a file and read back before it is adapted (its settings then are what the
+                # reader made of them, e.g. NumPy scalars)
+                import os
+                path = os.path.join(ck.work, "map%d.hdf5" % i)
+                m0.save(path)
+                m0 = em.GMMMachine.from_hdf5(path, ubm=prior)
+                m0.map_relevance_factor = rel
+                os.remove(path)
+            m = gt.fit(m0, X)
             w, mu, var = blend(prior, st, rel, um, uv, uw)
         fl = np.asarray(m.variance_thresholds, dtype=float)
         var = np.maximum(var, fl)
